@@ -3,6 +3,7 @@ import json
 
 from ..core import attempt, V, R, isolated, HarnessError
 from ..ref import hd, secp
+from ..ref import enc as enc_ref
 from .. import hdscen, sched
 from ..bfs import bfs
 
@@ -70,10 +71,24 @@ def ref_addr(path, kind, testnet=False):
 
 
 # ------------------------------------------------------------------------------------------------ E2: histories
-OPS = [["by_path", "m/0"], ["by_path", "m/0/1"], ["by_path", "m/44'/0'/0'"], ["by_path", "m/0'"],
+OPS = [["by_path", "m/0"], ["by_path", "m/0/1"], ["by_path", "m/0/1/2/3/4/5'/6"], ["by_path", "m/44'/0'/0'"], ["by_path", "m/0'"],
        ["ckd", 0], ["ckd", 1], ["ckd", H], ["children"], ["concat"],
        ["genA", "next"], ["genA", "send", 2], ["genA", "send", 0], ["genB", "next"],
-       ["addr"], ["xkeys"], ["bip85hex"], ["bip85wif"], ["wasabi"], ["generate"]]
+       ["addr"], ["xkeys"], ["bip85hex"], ["bip85wif"], ["wasabi"], ["bad", "ckd"], ["bad", "by_path"], ["bad", "bip85"], ["generate"]]
+
+
+_DEEP = []
+
+
+def _deep_probe():
+    return attempt(lambda: str(new_wallet().by_path("m/0/1/2/3/4/5'/6")))[0]
+
+
+def deep_baseline():
+    """what a FRESH wallet in a pristine process does with a path deeper than five levels: 'ok' or 'refused'"""
+    if not _DEEP:
+        _DEEP.append("ok" if isolated(_deep_probe) == "ok" else "refused")
+    return _DEEP[0]
 
 
 class World:
@@ -105,6 +120,9 @@ class World:
         if k == "by_path":
             path = hdscen.parse_path(op[1])
             st, n = attempt(w.by_path, op[1])
+            if len(path) > 5 and deep_baseline() == "refused":
+                # an implementation may refuse paths deeper than five levels - but then always, not depending on history
+                return (["consistently-refused"] if st != "ok" else ["exc", "served after a fresh wallet refuses"]), ["consistently-refused"]
             if st == "ok":
                 self.remember(path, n)
                 return [hdscen.canon_impl_node(n), str(n)], [ref_canon(path), hd.path_str(path)]
@@ -159,6 +177,11 @@ class World:
             exp = {"ExtPubKey": hd.xpub(rn, hd.version_for("pub", self.t, 44)), "MasterFingerprint": hd.fingerprint(master_ref().K).hex().upper(),
                    "ColdCardFirmwareVersion": "3.1.3"}
             return (json.loads(v) if st == "ok" else ["exc", v]), exp
+        if k == "bad":
+            # a request that must fail; only its (absent) effect on LATER requests is judged
+            f = {"ckd": lambda: w.master.ckd(2**32), "by_path": lambda: w.by_path("m/0/x/1"), "bip85": lambda: w.bip85.hex(8, 0)}[op[1]]
+            st, v = attempt(f)
+            return "failed-or-not", "failed-or-not"
         if k == "generate":
             st, v = attempt(w.generate, 0, (0, 1))
             return (v if st == "ok" else ["exc", v]), hd.paper_generate(master_ref(), self.t, 0, (0, 1), MN, PW)
@@ -221,7 +244,7 @@ STATE_FILES = ["bip32.py", "base_wallet.py", "paper_wallet.py", "bip85.py", "wal
 
 
 TOPS = ["ckd0", "ckd1", "ckd2", "bpA", "bpB", "children", "gen", "xkeys", "wif0", "wif1", "hex", "wasabi", "p2wpkh", "p2sh_p2wsh", "p2pkh0", "p2pkh1",
-        "generate", "wifnode", "xprvnode", "parsexpub"]
+        "generate", "wifnode", "xprvnode", "parsexpub", "h_bech32", "h_b58", "h_script", "h_wif", "h_varint"]
 
 
 def harness(name):
@@ -259,6 +282,7 @@ def harness(name):
             "wifnode": lambda: m0.private_key.wif(testnet=False),
             "xprvnode": lambda: [m0.extended_private_key(), m0.extended_public_key()],
             "parsexpub": lambda: c(type(master).__mro__[1].parse(xpub_m)),
+            "h_bech32": _h_bech32, "h_b58": _h_b58, "h_script": _h_script, "h_wif": _h_wif, "h_varint": _h_varint,
         }
         bodies = [B[o] for o in ops]
         pre = len(master.children)
@@ -282,6 +306,67 @@ def harness(name):
             return obs
         return bodies, finalize
     return make
+
+
+# pure-helper micro operations (no wallet state): module-level scratch state in a helper shows up when two of them interleave
+_PAY = bytes(range(1, 35))
+
+
+def _h_bech32():
+    from btc_hd_wallet import bech32
+    a = bech32.encode("bc", 16, list(_PAY[:2]))       # short program: few polymod iterations, same code paths
+    return [a, list(bech32.decode("bc", a)[1])]
+
+
+def _h_b58():
+    from btc_hd_wallet import helper
+    s1 = helper.encode_base58_checksum(b"\x00\x00" + _PAY[:20])
+    s2 = helper.encode_base58_checksum(b"\x80" + _PAY[:32] + b"\x01")
+    return [s1, helper.decode_base58_checksum(s1).hex(), s2, helper.decode_base58_checksum(s2).hex()]
+
+
+def _h_script():
+    from io import BytesIO
+    from btc_hd_wallet import script
+    sc = script.p2pkh_script(_PAY[:20])
+    ser = sc.serialize()
+    back = script.Script.parse(BytesIO(ser))
+    sc2 = script.Script([0x51, _PAY[:33], 0x51, 0xae])
+    return [ser.hex(), [x.hex() if isinstance(x, bytes) else x for x in back.cmds], sc2.raw_serialize().hex()]
+
+
+def _h_wif():
+    from btc_hd_wallet.keys import PrivateKey
+    k = PrivateKey(int.from_bytes(_PAY[:32], "big"))
+    w = k.wif(compressed=True, testnet=True)
+    return [w, bytes(PrivateKey.from_wif(w)).hex(), k.K.sec().hex(), k.K.sec(False).hex()]
+
+
+def _h_varint():
+    from io import BytesIO
+    from btc_hd_wallet import helper
+    out = []
+    for v in (0xfc, 0xfd, 0xffff, 0x10000, 2**32, 2**64 - 1):
+        e = helper.encode_varint(v)
+        out.append([e.hex(), helper.read_varint(BytesIO(e))])
+    return out
+
+
+def _helper_expected(op):
+    k = int.from_bytes(_PAY[:32], "big")
+    if op == "h_bech32":
+        return [enc_ref.segwit_encode("bc", 16, _PAY[:2]), list(_PAY[:2])]
+    if op == "h_b58":
+        p1, p2 = b"\x00\x00" + _PAY[:20], b"\x80" + _PAY[:32] + b"\x01"
+        return [enc_ref.b58check_encode(p1), p1.hex(), enc_ref.b58check_encode(p2), p2.hex()]
+    if op == "h_script":
+        raw = b"\x76\xa9\x14" + _PAY[:20] + b"\x88\xac"
+        return [(bytes([len(raw)]) + raw).hex(), [0x76, 0xa9, _PAY[:20].hex(), 0x88, 0xac], (b"\x51\x21" + _PAY[:33] + b"\x51\xae").hex()]
+    if op == "h_wif":
+        return [hd.wif(k, True, True), _PAY[:32].hex(), secp.sec(secp.pub(k)).hex(), secp.sec(secp.pub(k), False).hex()]
+    if op == "h_varint":
+        return [[hd.varint(v).hex(), v] for v in (0xfc, 0xfd, 0xffff, 0x10000, 2**32, 2**64 - 1)]
+    raise ValueError(op)
 
 
 def ref_canon_fast(path):
@@ -323,6 +408,8 @@ def expected_op(op):
         return hd.p2pkh(hd.derive(m, [0]).K), []
     if op == "p2pkh1":
         return hd.p2pkh(hd.derive(m, [1]).K), []
+    if op.startswith("h_"):
+        return _helper_expected(op), []
     if op == "wifnode":
         return hd.wif(hd.derive(m, [0]).k), []
     if op == "xprvnode":
@@ -471,15 +558,18 @@ def plan_for(thorough):
             pairs.append((a, b))
     pairs += [("xkeys", "xkeys"), ("xkeys", "ckd0"), ("xkeys", "bpA"), ("wif0", "bpA"), ("hex", "ckd0"), ("wasabi", "wasabi"), ("wasabi", "bpA"), ("wasabi", "wif0")]
     if thorough:
-        state_ops = [o for o in TOPS if o not in ("p2wpkh", "p2sh_p2wsh", "p2pkh0", "p2pkh1", "generate", "ckd2", "wifnode", "xprvnode", "parsexpub")]
+        state_ops = [o for o in TOPS if o not in ("p2wpkh", "p2sh_p2wsh", "p2pkh0", "p2pkh1", "generate", "ckd2", "wifnode", "xprvnode", "parsexpub")
+                     and not o.startswith("h_")]
         pairs = [(a, b) for i, a in enumerate(state_ops) for b in state_ops[i:]]
     for a, b in pairs:
         name = "%s|%s" % (a, b)
         if name not in ("ckd0|ckd0", "ckd0|ckd1"):
             plan.append((name, "state", 1))
-    plan += [("p2wpkh|p2sh_p2wsh", "all", 1)]
+    # every line of every module: one wallet-level pair whose threads share keys/ripemd/base58/script, plus pure-helper pairs
+    plan += [("p2sh_p2wsh|p2pkh0", "all", 1), ("h_bech32|h_bech32", "all", 1), ("h_b58|h_b58", "all", 1), ("h_script|h_script", "all", 1),
+             ("h_wif|h_b58", "all", 1), ("h_varint|h_script", "all", 1), ("h_bech32|h_b58", "all", 1)]
     if thorough:
-        plan += [("p2pkh0|p2pkh1", "all", 1)]
+        plan += [("p2pkh0|p2pkh1", "all", 1), ("p2wpkh|p2sh_p2wsh", "all", 1), ("h_wif|h_wif", "all", 1)]
         plan = [(n, g, 3 if n in ("ckd0|ckd0", "ckd0|ckd1") else b) for n, g, b in plan]
         plan += [("ckd0|ckd1|ckd2", "state", 2), ("bpA|bpB", "state", 2), ("children|gen", "state", 2), ("gen|gen", "state", 2), ("wif0|wif1", "state", 2),
                  ("xkeys|ckd0", "state", 2), ("hex|bpA", "state", 2), ("generate|wasabi", "state", 1),
